@@ -28,7 +28,7 @@ from lib import gx_shapes
 from lib import families_gx
 
 PROP = "GX"
-ALL_STAGES = ("native", "vm", "nano_vm", "interp", "asan", "h1", "h7")
+ALL_STAGES = ("native", "vm", "nano_vm", "interp", "asan", "iasan", "h1", "h7")
 DOCUMENTED = ("ok", "fault:assert", "fault:bounds")       # x / 0 and the call-depth limit differ between engines by design: not compared
 
 
@@ -39,7 +39,7 @@ def feature_sets(ctx):
     rnd = random.Random(ctx.seed * 7919 + 13)
     combos = []
     pool = [f for f in GX_FEATURES if not want or f in want] + ["maps", "fnvals"]
-    n_combo = (8 if ctx.tier == "quick" else 40) if len(pool) > 3 else 0
+    n_combo = (8 if ctx.tier == "quick" else 30) if len(pool) > 3 else 0
     while len(combos) < n_combo:
         c = tuple(sorted(rnd.sample(pool, rnd.choice([2, 2, 3]))))
         if c not in combos and any(f in GX_FEATURES for f in c):
@@ -48,7 +48,7 @@ def feature_sets(ctx):
 
 
 def corpus(ctx):
-    n = int(os.environ.get("GX_N", "0")) or (5 if ctx.tier == "quick" else 40)
+    n = int(os.environ.get("GX_N", "0")) or (10 if ctx.tier == "quick" else 20)
     seed0 = int(os.environ.get("GX_SEED0", "0")) or ctx.seed * 100003
     progs, feats = {}, {}
     avoid = tuple(a for a in os.environ.get("GX_AVOID", "").split(",") if a)
@@ -225,6 +225,12 @@ def diff_kind(ob, ex, err=b""):
     return "output" + msg
 
 
+def interp_msgs(x):
+    """the distinct diagnostics the evaluator printed during the run (part of the kind of a transcript difference)"""
+    ms = sorted({norm_msg(m) for m in re.findall(r"(?m)^(?:Error|Runtime error|error)[^\n]*", x["err"].decode(errors="replace"))})
+    return (" [" + "; ".join(ms[:4]) + "]") if ms else ""
+
+
 def compare(progs, base, shadow, runs, stages):
     issues, stats = [], collections.Counter()
     for pid, rr in runs.items():
@@ -239,6 +245,9 @@ def compare(progs, base, shadow, runs, stages):
         if not accepted(v):
             stats["rejected-by-the-real-checker"] += 1
             rr["rejected"] = True
+            t = v["err"].decode(errors="replace")
+            m = re.search(r"(?m)^(?:Error at line \d+, column \d+: )(.*)$", t) or re.search(r"(?m)^-- ([A-Z ]+) -+[^\n]*\n([^\n]*)", t)
+            stats["rejected: " + norm_msg(" ".join(m.groups()) if m else t[:60])] += 1
             continue
         stats["accepted"] += 1
         st = o["status"]
@@ -287,12 +296,11 @@ def compare(progs, base, shadow, runs, stages):
             elif w["status"] == "ok":
                 stats["compared:interp"] += 1
                 if tr["out"] != render_out(w["out"]) or tr["verdict"] != "PASSED":
-                    m = re.search(r"(?m)^(?:Error|Runtime error|error)[^\n]*", x["err"].decode(errors="replace"))
-                    issues.append(Issue(pid, "interp", "C03", "transcript-differs" + (" [" + norm_msg(m.group(0)) + "]" if m else ""), x["err"].decode(errors="replace")[-1500:], ("exit", 0, tr["out"].encode())))
+                    issues.append(Issue(pid, "interp", "C03", "transcript-differs" + interp_msgs(x), x["err"].decode(errors="replace")[-1500:], ("exit", 0, tr["out"].encode())))
             elif w["status"].startswith("fault:"):
                 stats["compared:interp"] += 1
                 if tr["verdict"] == "PASSED" or not tr["out"].startswith(render_out(w["out"])):
-                    issues.append(Issue(pid, "interp", "C03", "fault-not-reported", "", ("exit", 1, tr["out"].encode())))
+                    issues.append(Issue(pid, "interp", "C03", "transcript-differs (fault-not-reported)" + interp_msgs(x), "", ("exit", 1, tr["out"].encode())))
     return issues, stats
 
 
@@ -354,8 +362,13 @@ def attribute(ctx, progs, base, shadow, issues):
             sh = m.get("shape")
             if not sh or not gx_shapes.SHAPES[sh](progs[it.pid]):
                 continue
-            it.known = [f["id"]]
-            break
+            it.known = (it.known or []) + [f["id"]]
+            if it.engine != "interp":          # an evaluator transcript may carry the diagnostics of several listed defects
+                break
+        if it.known and it.engine == "interp" and "for loop requires range expression" in it.kind and "NATIVE_FOR_IN_ARRAY_SKIPPED" in ks:
+            it.known.append(ks["NATIVE_FOR_IN_ARRAY_SKIPPED"])
+        if it.known:
+            it.known = sorted(set(it.known))
     return recs
 
 
@@ -386,6 +399,37 @@ def stage_asan(ctx, progs, base, runs, issues, stats):
             where = next((x for x in fr if not x.startswith(("__", "_IO", "printf", "vfprintf", "main")) and "sanitizer" not in x), "")
             it = Issue(pid, "asan", "C20", kind + " in " + where, r["stderr"][-3000:])
             issues.append(it)
+
+
+def iasan_run(eng, name, p):
+    di = eng.write(name, pretty(interp_variant(p)))
+    e = eng.env({"NANO_CC": "/bin/true", "ASAN_OPTIONS": "detect_leaks=0:exitcode=77:symbolize=1:allocator_may_return_null=1", "UBSAN_OPTIONS": "print_stacktrace=1"})
+    return _run([os.path.join(eng.bin, "nanoc_c"), "p.nano", "-o", "p.shadow"], di, e, 300)
+
+
+def iasan_kind(x):
+    """(kind, report) of a sanitizer report / fatal signal of the compiler, or None"""
+    t = x["err"].decode(errors="replace")
+    if not (SAN_RE.search(t) or x["sig"]):
+        return None
+    line = next((l for l in t.splitlines() if SAN_RE.search(l)), "signal-%s" % x["sig"])
+    kind = re.sub(r"0x[0-9a-f]+|\d+", "_", re.sub(r"^.*?(runtime error:|ERROR: AddressSanitizer:)", r"\1", line))
+    kind = re.sub(r" on address.*| in thread.*", "", kind)[:80]
+    fr = re.findall(r"#\d+ 0x[0-9a-f]+ in (\w+)", t)
+    where = next((f for f in fr if not f.startswith(("__", "_IO", "str", "mem", "free", "malloc", "realloc", "calloc", "printf", "vprintf")) and "interceptor" not in f), "")
+    i0 = max(0, t.find(line))
+    return kind + " in " + where, t[i0:i0 + 3500]
+
+
+def stage_iasan(ctx, progs, base, runs, issues, stats):
+    """the compile-time evaluator itself under ASan+UBSan: the shadow run of the program must not make the compiler misbehave"""
+    eng = Engines(ctx, "asan")
+    todo = [pid for pid in progs if base[pid]["wt"] and not runs[pid].get("rejected")]
+    for pid, x in parallel_map(lambda pid: (pid, iasan_run(eng, pid + ".ia", progs[pid])), todo):
+        stats["iasan:programs"] += 1
+        k = iasan_kind(x)
+        if k:
+            issues.append(Issue(pid, "iasan", "C04", k[0], k[1]))
 
 
 def stage_h1(ctx, progs, base, runs, eng, issues, stats):
@@ -463,6 +507,9 @@ def stage_h7(ctx, progs, base, runs, issues, stats, head):
         if kind == "known":
             ctx.known(a, "(instruction level) " + b)
             continue
+        if "core resumed: Reset" in a or "observed Reset" in a:
+            stats["h7:cut-at-head(not judged)"] += 1        # the trace prefix ends between a host event and the next instruction: nothing to judge
+            continue
         m = re.match(r"(\S+): step \S+, instruction (\w+).*?: (\S+) differs", a) or re.match(r"(\S+): the VM was killed by signal (\d+) while executing instruction (\w+)", a)
         pid = m.group(1) if m else a.split(":")[0]
         k = ("%s %s" % (m.group(2), m.group(3))) if m else a[:60]
@@ -481,6 +528,8 @@ def reducer(ctx, eng, fast_env, it, progs, runs):
                 break
         if it.engine == "native": ref = "vm"
     cnt = [0]
+    t_start = time.time()
+    budget = 40 if ctx.tier == "quick" else 120
 
     def run_engine(engine, q, d):
         if engine in ("vm", "h7", "h1"):
@@ -504,12 +553,15 @@ def reducer(ctx, eng, fast_env, it, progs, runs):
 
     def pred(q):
         cnt[0] += 1
-        if cnt[0] > 400:
+        if cnt[0] > 250 or time.time() - t_start > budget:
             return False
         try:
             src = pretty(q)
         except Exception:
             return False
+        if it.engine == "iasan":
+            k = iasan_kind(iasan_run(Engines(ctx, "asan"), "red%d.ia" % cnt[0], q))
+            return bool(k) and k[0].split(" in ")[0] == it.kind.split(" in ")[0]
         d = eng.write("red%d" % cnt[0], src)
         x = run_engine(it.engine, q, d)
         if it.prop == "C04":
@@ -558,6 +610,8 @@ def run(ctx):
         return {pid: live[pid] for pid in (ids if ctx.tier == "thorough" or os.environ.get("VERIF_ONLY") else ids[::k])}
     if "asan" in stages:
         t0 = time.time(); stage_asan(ctx, slice_(2), base, runs, issues, stats); stats["wall_asan_s"] = round(time.time() - t0, 1)
+    if "iasan" in stages:
+        t0 = time.time(); stage_iasan(ctx, slice_(2), base, runs, issues, stats); stats["wall_iasan_s"] = round(time.time() - t0, 1)
     if "h1" in stages:
         t0 = time.time(); stage_h1(ctx, slice_(2), base, runs, eng, issues, stats); stats["wall_h1_s"] = round(time.time() - t0, 1)
     if "h7" in stages:
@@ -587,7 +641,7 @@ def run(ctx):
         it = its[0]
         p = progs[it.pid]
         red = p
-        if not os.environ.get("GX_NOREDUCE") and it.engine in ("native", "vm", "nano_vm", "interp"):
+        if not os.environ.get("GX_NOREDUCE") and it.engine in ("native", "vm", "nano_vm", "interp", "iasan"):
             pred = reducer(ctx, eng, fast_env, it, progs, runs)
             try:
                 if pred(p):
